@@ -508,8 +508,11 @@ def dispatch_campaign(ctx, n):
                 x = gen_xform(rng, 64, False)
                 scope = rng.choice([None, None, ['main'], ['other'], ['main', 'other'], ['absent']])
                 xf.append({'s': x['s'] + ''.join(';' + t for t in (scope or [])), 'scope': scope})
+            # a filter instance lives for many frames: earlier calls of the SAME instance with the same topic names, in which a topic carried no image yet
+            # (data-only frame), another size or another format, must not change what the observed call does
+            pre = [] if rng.random() < 0.5 else [{t: rng.choice(['img', 'img', 'data', 'small', 'gray']) for t in ('main', 'other')} for _ in range(rng.randint(1, 2))]
             cases.append({'k': 'dispatch', 'xf': xf, 'w': rng.randint(1, 8), 'h': rng.randint(1, 8), 'w2': rng.randint(1, 8), 'h2': rng.randint(1, 8),
-                          'fmt': rng.choice(['GRAY', 'BGR', 'RGB']), 'seed': rng.randrange(10**6)})
+                          'fmt': rng.choice(['GRAY', 'BGR', 'RGB']), 'seed': rng.randrange(10**6), 'pre': pre})
     reqs = []
     for c in cases:
         r = np.random.RandomState(c['seed'])
@@ -520,7 +523,22 @@ def dispatch_campaign(ctx, n):
         except Exception as e:
             res.violations.append(Violation('xform-parse-raises', f'valid scoped xform strings {[x["s"] for x in c["xf"]]} rejected: {errname(e)}', c)); continue
         u = Util.__new__(Util)
-        u.log = None; u.xforms = cfg.xforms; u.executor = ThreadPoolExecutor(1); u.sleep = None; u.t_per_maxfps = None; u.config = cfg
+        u.config = cfg
+        try:
+            u.setup(cfg)              # the real set-up (whatever per-instance state the class keeps is initialised by the class itself)
+            u.log = None
+        except Exception:
+            u.log = None; u.xforms = cfg.xforms; u.executor = ThreadPoolExecutor(1); u.sleep = None; u.t_per_maxfps = None
+        for k, pc in enumerate(c.get('pre') or []):
+            pf = {}
+            for t, kind in pc.items():
+                if kind == 'data': pf[t] = Frame({'early': k})
+                elif kind == 'small': pf[t] = Frame(r.randint(0, 256, (1, 1) if c['fmt'] == 'GRAY' else (1, 1, 3)).astype(np.uint8), {'t': t}, c['fmt'])
+                elif kind == 'gray': pf[t] = Frame(r.randint(0, 256, (3, 2)).astype(np.uint8), {'t': t}, 'GRAY')
+                else: pf[t] = Frame(img(2, 3), {'t': t}, c['fmt'])
+            pf['nodata'] = Frame({'x': 0})
+            try: u.process(pf)
+            except Exception: pass
         handed = {}
         real_exec = u.execute_xforms
         def rec(tx, handed=handed, xs=cfg.xforms, real_exec=real_exec):
